@@ -65,6 +65,12 @@ func c01Scenarios(tier string) []*Scenario {
 				add([]GNode{a, b}, []APICall{{Op: "restart", Name: "b"}})
 			}
 		}
+		// a dependency that cannot be started at all (exec fails; working_dir does not exist)
+		for _, beh := range []string{"startfail", "baddir"} {
+			a := depNodeFor("a", c, "sat")
+			a.Beh, a.PrintsRdy = beh, false
+			add([]GNode{a, leaf("b", map[string]string{"a": c})})
+		}
 		// restartable dependency: fails first, then behaves
 		a := depNodeFor("a", c, "sat")
 		a.Restart = "on_failure"
